@@ -469,10 +469,13 @@ def run(ctx):
         # calculators of every group (imports and the other access routes are covered by (a)); the measured
         # full-alphabet space is 22 / 231 / 1 534 / 7 041 / ... states at depth 1 / 2 / 3 / 4 and does not close
         # in hours, mostly because the nine independent imports multiply it by up to 2^9
-        names = set(n for n in (e.name for e in model.events())
-                    if n.startswith("init:") or n.startswith("calc:") or n.startswith("print:")
-                    or (n.startswith("get:el:") and n.split(":")[2] in [g[1][0] for g in GROUPS])
-                    or n == "get:iso:neutron_activation")
+        if os.environ.get("VERIF_C09_CLOSURE") == "noimports":
+            names = set(e.name for e in model.events() if e.expand and not e.name.startswith("import:"))
+        else:
+            names = set(n for n in (e.name for e in model.events())
+                        if n.startswith("init:") or n.startswith("calc:") or n.startswith("print:")
+                        or (n.startswith("get:el:") and n.split(":")[2] in [g[1][0] for g in GROUPS])
+                        or n == "get:iso:neutron_activation")
         acc.info["max_closure_alphabet"] = len(names)
         ex = histmc.Explorer(model, ctx.jobs, ctx.log).run(depth=None, expand_names=names, on_state=oracle,
                                                            state_cap=int(os.environ.get("VERIF_C09_CAP", "0")) or None)
